@@ -243,7 +243,7 @@ type translator struct {
 	buf  string // buffer argument name
 	s    *Schema
 
-	encUnchecked int // bin.Object fields encoded without a nil check
+	encUnchecked int    // bin.Object fields encoded without a nil check
 	soft         string // a defect that does not stop the translation of the field list
 }
 
